@@ -120,9 +120,20 @@ func runBits(p bitProg) tr.Ev {
 					refused = true
 				}
 			}()
-			obs.WriteBits(1, 1)
-			for i := 0; i < 80; i++ {
-				obs.WriteBits(0x5555, 16)
+			// each kind of operation must be refused as the FIRST operation on a closed stream (one kind per program)
+			switch p.ID % 3 {
+			case 0:
+				obs.WriteBit(1)
+				for i := 0; i < 200; i++ {
+					obs.WriteBit(i & 1)
+				}
+			case 1:
+				obs.WriteBits(1, 1)
+				for i := 0; i < 80; i++ {
+					obs.WriteBits(0x5555, 16)
+				}
+			default:
+				obs.WriteArray(make([]byte, 64), 500)
 			}
 		}()
 		ev["closedRefusesW"] = refused && int(w0) == len(vec.bits) && obs.Close() == nil
@@ -195,7 +206,19 @@ func runBits(p bitProg) tr.Ev {
 					refused = true
 				}
 			}()
-			ibs.ReadBits(8)
+			switch p.ID % 3 {
+			case 0:
+				for i := 0; i < 200; i++ {
+					ibs.ReadBit()
+				}
+			case 1:
+				ibs.ReadBits(8)
+				for i := 0; i < 20; i++ {
+					ibs.ReadBits(64)
+				}
+			default:
+				ibs.ReadArray(make([]byte, 64), 500)
+			}
 		}()
 		ev["closedRefusesR"] = refused
 	}()
